@@ -17,47 +17,47 @@ theorem facts_hextable :
 theorem facts_parse : Golib.Gen.C15.maxUint64 = maxUint64 ∧ Golib.Gen.C15.wordBits = wordBits := by
   decide
 
-/-- Which calls each helper makes: every digest / HMAC helper is `strz.HexEncode` applied to
+/-- Which calls each helper makes (outermost call expressions, in source order): every digest / HMAC helper is `strz.HexEncode` applied to
 one stdlib digest (`md5.Sum`, `sha256.Sum224`, …, `hmac.New` + `Sum`), the `…ToString`
 variants only wrap the `[]byte` variant in `UnsafeString`, `HexDecodeInPlace` is
 `hex.Decode`, the Base64 helpers call the stdlib `enc.Encode` / `enc.Decode`, and the hex
 wrappers call the modelled `hexEncode` / `hexDecode`. -/
 theorem facts_calls : Golib.Gen.C15.calls =
-  [("hashz.Hmac", ["hmac.New", "strz.UnsafeStrOrBytesToBytes", "hh.Write", "strz.UnsafeStrOrBytesToBytes", "strz.HexEncode", "hh.Sum"])
-  , ("hashz.HmacToString", ["strz.UnsafeString", "Hmac"])
-  , ("hashz.Md5", ["md5.Sum", "strz.UnsafeStrOrBytesToBytes", "strz.HexEncode"])
-  , ("hashz.Md5Stream", ["md5.New", "io.Copy", "strz.HexEncode", "h.Sum"])
-  , ("hashz.Md5ToString", ["strz.UnsafeString", "Md5"])
-  , ("hashz.Sha1", ["sha1.Sum", "strz.UnsafeStrOrBytesToBytes", "strz.HexEncode"])
-  , ("hashz.Sha1Stream", ["sha1.New", "io.Copy", "strz.HexEncode", "h.Sum"])
-  , ("hashz.Sha1ToString", ["strz.UnsafeString", "Sha1"])
-  , ("hashz.Sha224", ["sha256.Sum224", "strz.UnsafeStrOrBytesToBytes", "strz.HexEncode"])
-  , ("hashz.Sha224Stream", ["sha256.New224", "io.Copy", "strz.HexEncode", "h.Sum"])
-  , ("hashz.Sha224ToString", ["strz.UnsafeString", "Sha224"])
-  , ("hashz.Sha256", ["sha256.Sum256", "strz.UnsafeStrOrBytesToBytes", "strz.HexEncode"])
-  , ("hashz.Sha256Stream", ["sha256.New", "io.Copy", "strz.HexEncode", "h.Sum"])
-  , ("hashz.Sha256ToString", ["strz.UnsafeString", "Sha256"])
-  , ("hashz.Sha384", ["sha512.Sum384", "strz.UnsafeStrOrBytesToBytes", "strz.HexEncode"])
-  , ("hashz.Sha384Stream", ["sha512.New384", "io.Copy", "strz.HexEncode", "h.Sum"])
-  , ("hashz.Sha384ToString", ["strz.UnsafeString", "Sha384"])
-  , ("hashz.Sha512", ["sha512.Sum512", "strz.UnsafeStrOrBytesToBytes", "strz.HexEncode"])
-  , ("hashz.Sha512Stream", ["sha512.New", "io.Copy", "strz.HexEncode", "h.Sum"])
-  , ("hashz.Sha512ToString", ["strz.UnsafeString", "Sha512"])
-  , ("hashz.Sha512_224", ["sha512.Sum512_224", "strz.UnsafeStrOrBytesToBytes", "strz.HexEncode"])
-  , ("hashz.Sha512_224ToString", ["strz.UnsafeString", "Sha512_224"])
-  , ("hashz.Sha512_256", ["sha512.Sum512_256", "strz.UnsafeStrOrBytesToBytes", "strz.HexEncode"])
-  , ("hashz.Sha512_256ToString", ["strz.UnsafeString", "Sha512_256"])
-  , ("strz.Base64Decode", ["make", "enc.DecodedLen", "len", "enc.Decode", "UnsafeStrOrBytesToBytes"])
-  , ("strz.Base64DecodeToString", ["Base64Decode", "UnsafeString"])
-  , ("strz.Base64Encode", ["make", "enc.EncodedLen", "len", "enc.Encode", "UnsafeStrOrBytesToBytes"])
-  , ("strz.Base64EncodeToString", ["UnsafeString", "Base64Encode"])
-  , ("strz.HexDecode", ["make", "hex.DecodedLen", "len", "hexDecode"])
-  , ("strz.HexDecodeInPlace", ["hex.Decode"])
-  , ("strz.HexDecodeToString", ["HexDecode", "UnsafeString"])
-  , ("strz.HexEncode", ["make", "hex.EncodedLen", "len", "hexEncode"])
-  , ("strz.HexEncodeToString", ["UnsafeString", "HexEncode"])
-  , ("strz.IPv4ToLong", ["strings.Split", "strconv.ParseInt", "uint32"])
-  , ("strz.LongToIPv4", ["net.IPv4().String", "net.IPv4", "byte", "byte", "byte", "byte"])] := by
+  [("hashz.Hmac", ["hmac.New(h, strz.UnsafeStrOrBytesToBytes(key))", "hh.Write(strz.UnsafeStrOrBytesToBytes(data))", "strz.HexEncode(hh.Sum(nil))"])
+  , ("hashz.HmacToString", ["strz.UnsafeString(Hmac(key, data, h))"])
+  , ("hashz.Md5", ["md5.Sum(strz.UnsafeStrOrBytesToBytes(s))", "strz.HexEncode(h[:])"])
+  , ("hashz.Md5Stream", ["md5.New()", "io.Copy(h, s)", "strz.HexEncode(h.Sum(nil))"])
+  , ("hashz.Md5ToString", ["strz.UnsafeString(Md5(s))"])
+  , ("hashz.Sha1", ["sha1.Sum(strz.UnsafeStrOrBytesToBytes(s))", "strz.HexEncode(h[:])"])
+  , ("hashz.Sha1Stream", ["sha1.New()", "io.Copy(h, s)", "strz.HexEncode(h.Sum(nil))"])
+  , ("hashz.Sha1ToString", ["strz.UnsafeString(Sha1(s))"])
+  , ("hashz.Sha224", ["sha256.Sum224(strz.UnsafeStrOrBytesToBytes(s))", "strz.HexEncode(h[:])"])
+  , ("hashz.Sha224Stream", ["sha256.New224()", "io.Copy(h, s)", "strz.HexEncode(h.Sum(nil))"])
+  , ("hashz.Sha224ToString", ["strz.UnsafeString(Sha224(s))"])
+  , ("hashz.Sha256", ["sha256.Sum256(strz.UnsafeStrOrBytesToBytes(s))", "strz.HexEncode(h[:])"])
+  , ("hashz.Sha256Stream", ["sha256.New()", "io.Copy(h, s)", "strz.HexEncode(h.Sum(nil))"])
+  , ("hashz.Sha256ToString", ["strz.UnsafeString(Sha256(s))"])
+  , ("hashz.Sha384", ["sha512.Sum384(strz.UnsafeStrOrBytesToBytes(s))", "strz.HexEncode(h[:])"])
+  , ("hashz.Sha384Stream", ["sha512.New384()", "io.Copy(h, s)", "strz.HexEncode(h.Sum(nil))"])
+  , ("hashz.Sha384ToString", ["strz.UnsafeString(Sha384(s))"])
+  , ("hashz.Sha512", ["sha512.Sum512(strz.UnsafeStrOrBytesToBytes(s))", "strz.HexEncode(h[:])"])
+  , ("hashz.Sha512Stream", ["sha512.New()", "io.Copy(h, s)", "strz.HexEncode(h.Sum(nil))"])
+  , ("hashz.Sha512ToString", ["strz.UnsafeString(Sha512(s))"])
+  , ("hashz.Sha512_224", ["sha512.Sum512_224(strz.UnsafeStrOrBytesToBytes(s))", "strz.HexEncode(h[:])"])
+  , ("hashz.Sha512_224ToString", ["strz.UnsafeString(Sha512_224(s))"])
+  , ("hashz.Sha512_256", ["sha512.Sum512_256(strz.UnsafeStrOrBytesToBytes(s))", "strz.HexEncode(h[:])"])
+  , ("hashz.Sha512_256ToString", ["strz.UnsafeString(Sha512_256(s))"])
+  , ("strz.Base64Decode", ["make([]byte, enc.DecodedLen(len(s)))", "enc.Decode(dst, UnsafeStrOrBytesToBytes(s))"])
+  , ("strz.Base64DecodeToString", ["Base64Decode(s, enc)", "UnsafeString(b)"])
+  , ("strz.Base64Encode", ["make([]byte, enc.EncodedLen(len(s)))", "enc.Encode(dst, UnsafeStrOrBytesToBytes(s))"])
+  , ("strz.Base64EncodeToString", ["UnsafeString(Base64Encode(s, enc))"])
+  , ("strz.HexDecode", ["make([]byte, hex.DecodedLen(len(s)))", "hexDecode(dst, s)"])
+  , ("strz.HexDecodeInPlace", ["hex.Decode(b, b)"])
+  , ("strz.HexDecodeToString", ["HexDecode(s)", "UnsafeString(b)"])
+  , ("strz.HexEncode", ["make([]byte, hex.EncodedLen(len(s)))", "hexEncode(dst, s)"])
+  , ("strz.HexEncodeToString", ["UnsafeString(HexEncode(s))"])
+  , ("strz.IPv4ToLong", ["strings.Split(ip, \".\")", "strconv.ParseInt(v, 10, 32)", "uint32(n)"])
+  , ("strz.LongToIPv4", ["net.IPv4(byte(long >> 24), byte(long >> 16), byte(long >> 8), byte(long)).String()"])] := by
   decide
 
 end Golib.C15
